@@ -221,6 +221,54 @@ pub fn gen_cfn(r: &mut Rng) -> J {
     J::Map(top)
 }
 
+/// A Terraform plan (`terraform show -json`): the console reporter has a dedicated path for
+/// documents with a top-level `resource_changes`. Mostly well-formed entries; some lack an
+/// address, carry one without a dot or of another type, have properties outside
+/// `change.after`, or no `change` at all (all legal JSON the tool may be given).
+pub fn gen_tf(r: &mut Rng) -> J {
+    let n = 1 + r.usize(4);
+    let mut changes = Vec::new();
+    for i in 0..n {
+        let ty = *r.pick(&["aws_s3_bucket", "aws_ebs_volume", "aws_instance"]);
+        let mut after = vec![("name".to_string(), J::Str(format!("n{}", i % 2))), ("size".to_string(), J::Int(*r.pick(&[1i64, 2, 50])))];
+        if r.chance(1, 2) {
+            after.push(("encrypted".to_string(), J::Bool(r.chance(1, 2))));
+        }
+        if r.chance(1, 3) {
+            after.push(("tags".to_string(), J::Map(vec![("env".into(), J::Str((*r.pick(&["dev", "prod", "é"])).to_string()))])));
+        }
+        if r.chance(1, 4) {
+            after.push(("rules".to_string(), J::List(vec![J::Map(vec![("port".into(), J::Int(22))]), J::Map(vec![("port".into(), J::Int(443))])])));
+        }
+        let mut e = Vec::new();
+        match r.below(10) {
+            0 => {}
+            1 => e.push(("address".to_string(), J::Str(format!("nodot{i}")))),
+            2 => e.push(("address".to_string(), J::Int(i as i64))),
+            _ => e.push(("address".to_string(), J::Str(format!("{ty}.r{i}")))),
+        }
+        e.push(("type".to_string(), J::Str(ty.to_string())));
+        e.push(("name".to_string(), J::Str(format!("r{i}"))));
+        if r.chance(1, 4) {
+            e.push(("x".to_string(), gen_scalar(r)));
+        }
+        if !r.chance(1, 8) {
+            let mut ch = vec![("actions".to_string(), J::List(vec![J::Str((*r.pick(&["create", "update", "delete"])).to_string())]))];
+            if !r.chance(1, 6) {
+                ch.push(("after".to_string(), J::Map(after)));
+            }
+            e.push(("change".to_string(), J::Map(ch)));
+        }
+        changes.push(J::Map(e));
+    }
+    let mut top = vec![("format_version".to_string(), J::Str("1.0".into()))];
+    top.push(("resource_changes".to_string(), J::List(changes)));
+    if r.chance(1, 3) {
+        top.push(("zz_after".to_string(), J::Map(vec![("k".into(), gen_scalar(r))])));
+    }
+    J::Map(top)
+}
+
 /// A variant of `d`: same shape mostly, some values changed / dropped / added.
 pub fn mutate(r: &mut Rng, d: &J) -> J {
     match d {
